@@ -9,6 +9,12 @@ pub mod ir;
 pub mod opt;
 pub mod runtime;
 
+/// Re-exports of crate-private items for the external verification harness.
+#[cfg(feature = "verif")]
+pub mod verif {
+    pub use crate::smallvec::{SmallVec, SmallVecIntoIter};
+}
+
 use std::{fmt::Debug, hash::Hash};
 
 /// Kind of error that might be encountered during the parsing of a Brainfuck
